@@ -219,6 +219,11 @@ func H_Coll(p []int) {
 
 	// child search: exactly the non-empty children whose rectangle meets the query, once each, honouring stop
 	q := X.Rect()
+	if len(p) > 4 && p[4] == 1 {
+		// an arbitrary query rectangle, independent of the probe (it may cover the whole collection)
+		q = geometry.Rect{Min: geometry.Point{X: vF("qx", 0), Y: vF("qy", 0)}, Max: geometry.Point{X: vF("qx", 1), Y: vF("qy", 1)}}
+		vAssume(q.Min.X <= q.Max.X && q.Min.Y <= q.Max.Y)
+	}
 	calls := make([]int, len(kids)+1)
 	conts := make([]bool, len(kids)+1)
 	names := [...]string{"c0", "c1", "c2", "c3", "c4"}
